@@ -153,7 +153,9 @@ func (a wireAns) String() string {
 }
 
 // parseableRA: the server indicated an instant (the property's "deferred with Retry-After")
-func (a wireAns) deferred() bool { return a.Kind == "error" && a.Status == 429 && (a.RA == "secs" || a.RA == "date") }
+func (a wireAns) deferred() bool {
+	return a.Kind == "error" && a.Status == 429 && (a.RA == "secs" || a.RA == "date")
+}
 
 const wireRASecs = 3600
 
@@ -297,8 +299,8 @@ var (
 
 const (
 	wireMaxRequests = 14
-	wireHoldGuard   = 20 * time.Second       // tool guard: a held response nobody consumes, closes or re-requests
-	wireGrace       = 300 * time.Millisecond // see arrive(): only spent on the path that ends in an overlap report
+	wireHoldGuard   = 20 * time.Second // tool guard: a held response nobody consumes, closes or re-requests
+	wireGrace       = 3 * time.Second  // see arrive(): only spent on the path that ends in an overlap report (generous: a lagging close on an overloaded machine must never turn into an alarm)
 )
 
 func wireServerGet() *wireServer {
